@@ -22,6 +22,8 @@ def alias (op : String) (args : List String) : String × List String :=
   | "bundle.read.buffer", _ => ("bundle.read", args)
   | "sxg.read.buffer", _ => ("sxg.read", args)
   | "mice.dec.copy", _ => ("mice.dec", args)
+  | "sh.parse.twice", _ => ("sh.parse.pl", args)      -- an earlier parse of the same string (result scribbled over) changes nothing
+  | "ib.sha512.handle", [f, _] => ("sha512", [f])     -- where the handle's read position was does not matter
   | "fault.retry", _ => ("fault", args)      -- plus: the same object serialised again afterwards gives the fault-free bytes
   | "cw.seq", [k, room, seq] => ("cw.seq", [k, room, seq.replace "R" "r"])   -- R: the source reports io.EOF together with its last bytes
   | "mice.twice", [d, mx, dg, _, b] => ("mice.all", [d, mx, dg, b])
